@@ -19,13 +19,16 @@ RULE = ("Hypothesis draws a type tree (depth drawn first from 0..3, 0..4 in the 
         "value built by construction for that tree (boundary-weighted integers +-2^k+-1, varints up to 2^320, decimals with exponents "
         "to +-400 and the int32 scale limits, float specials, non-BMP/NUL text, ms timestamps over years 1-9999, dates over the whole "
         "uint32 range, times, same-sign durations over int32/int32/int64, inet v4/v6, null elements/fields, empty collections, short "
-        "tuples), a protocol version from {1,2,3,4,5,6,0x41,0x42}, one of four Python input styles (canonical / stdlib alternates / "
-        "driver containers and raw ints / timezone-aware datetimes with fixed offsets such as +05:30, +14:00, -12:00) and the way the type class is built (apply_parameters or lookup_casstype of the class-name "
+        "tuples), a protocol version from {1,2,3,4,5,6,0x41,0x42}, one of five Python input styles (canonical / stdlib alternates / "
+        "driver containers and raw ints / timezone-aware datetimes with fixed offsets such as +05:30, +14:00, -12:00 / alternate "
+        "spellings: datetime.datetime with a time of day or 'yyyy-mm-dd' for a date, 'HH:MM:SS.n' for a time, datetime.date or float for a "
+        "timestamp, int or numeric string for a decimal) and the way the type class is built (apply_parameters or lookup_casstype of the class-name "
         "string).  Non-trivial: tree depth >= 2, or the value is in a boundary class (integer at +-2^k+-1, varint >= 64 bit, non-BMP "
         "text, null inside a container, empty collection, protocol <= 2 with a top-level collection, timestamp outside 1970-2038, "
         "short tuple, float special, date beyond datetime.date, a timezone-aware datetime input).  Part vint-size-boundaries enumerates vectors "
         "(dimension 1-3) of variable-width element types with one element whose encoding is exactly 0, 1, 126..129, 255, 256, "
-        "16383..16385 or about 2^21 bytes.  Distinctness by case digest.")
+        "16383..16385 or about 2^21 bytes.  Part input-spellings enumerates every accepted python spelling of date, time and timestamp values "
+        "over 22 boundary days on both sides of the epoch x 5 times of day x 5 embeddings.  Distinctness by case digest.")
 ASSUMPTIONS = [
     "float values are float32-representable; timestamps are naive or fixed-offset aware datetimes (or ints) with millisecond precision inside datetime's range; aware datetimes must come back as the naive UTC datetime of the same instant",
     "set elements / map keys are types the driver documents as orderable/serializable keys, contain no nulls and no NaN",
@@ -50,7 +53,7 @@ def _nontrivial(tree, feats):
     return V.depth(tree) >= 2 or bool(feats & {
         "int-boundary", "varint>=64bit", "non-bmp", "null-inside", "empty-collection", "v2-toplevel-collection",
         "ts-outside-1970-2038", "short-tuple", "float-special", "date-beyond-pydate", "decimal-big-exp", "duration-boundary",
-        "long>=128B", "aware-datetime"})
+        "long>=128B", "aware-datetime", "alt-spelling"})
 
 
 def _diff_key(sub, d, tree):
@@ -124,6 +127,9 @@ def interpret_roundtrip(case, ctx):
     if style == 3 and "timestamp" in V.leaves(tree) and V.contains_value(tree, value, "timestamp"):
         feats = feats | {"aware-datetime"}
         ctx.label("f:aware-datetime")
+    for sp in sorted(V.spelling_features(tree, value, style)):
+        feats = feats | {"alt-spelling"}
+        ctx.label("f:" + sp)
     if _drv.null_in_16bit_collection(tree, value, pv):
         # no representation exists: outside the domain (whether the driver should raise here is not C01's business)
         ctx.label("skip:null-in-v1/v2-16bit-collection")
@@ -254,6 +260,26 @@ def interpret_vint_size(case, ctx):
                   "%s with an element of %d bytes does not survive the round trip" % (V.cql_name(tree), case["size"]))
 
 
+def interpret_spelling(case, ctx):
+    """round trip of date / time / timestamp values given in every accepted python spelling"""
+    tree, value, obj = _drv.spelling_build(case)
+    pv = case["pv"]
+    feat = "%s-from-%s" % (case["leaf"], case["form"])
+    sub = ("pre-epoch" if case["n"] < 0 else "post-epoch") + ("-non-midnight" if case["tod_us"] else "")
+    ctx.label("spelling", "sp:" + feat, "sp:" + feat + ":" + sub)
+    ctx.nontrivial(True)
+    got = None
+    try:
+        with ctx.driver(["C01.roundtrip.raises", feat, sub], expect=(V.NormaliseError,)):
+            typ = _drv.build_type(tree)
+            got = _drv.from_driver(tree, typ.from_binary(typ.to_binary(obj, pv), pv))
+    except V.NormaliseError as e:
+        ctx.fail(["C01.type", feat], str(e)[:300])
+    if not ctx._failures:
+        ctx.check(V.same(tree, value, got), ["C01.roundtrip", feat, sub],
+                  "%s given as %r came back as %r, expected %r" % (V.cql_name(tree), obj, got, value))
+
+
 def parts(tier):
     return [
         hyp_part("roundtrip", s_roundtrip_quick if tier == "quick" else s_roundtrip_thorough, interpret_roundtrip, tier,
@@ -265,4 +291,5 @@ def parts(tier):
                          "f:aware-datetime": 0.004}),
         EnumPart("null", list(V.PROTOCOL_VERSIONS), null_cases, interpret_null),
         EnumPart("vint-size-boundaries", _drv.vsb_chunks(), _drv.vsb_cases, interpret_vint_size),
+        EnumPart("input-spellings", _drv.spelling_chunks(), _drv.spelling_cases, interpret_spelling),
     ]
